@@ -207,6 +207,7 @@ func analyse(ids []string, repo, cfg, tier string) (rs map[string]*rep.Report, e
 	if len(p.Pkgs) < 7 {
 		return nil, fmt.Errorf("only %d module packages loaded for %s, expected at least 7", len(p.Pkgs), cfg)
 	}
+	p.SetKnown(props.KnownNames())
 	rs = map[string]*rep.Report{}
 	for _, id := range ids {
 		r := rep.New(id, cfg)
